@@ -162,6 +162,18 @@ Definition C04_burst_through : Prop :=
 Definition C04_burst_cursors : Prop :=
   C04_cursors_ok_sound /\ C04_burst_from_num /\ C04_burst_from_cursor /\ C04_burst_junction_consumer /\ C04_burst_through.
 
+(* the clauses of the property, written out (cursor_discipline), for the three bursts *)
+Definition C04_burst_discipline : Prop :=
+  forall s hd sg,
+    wf_state s -> head_chain s hd sg -> lib_anchored s sg ->
+    (forall n evs, blocks_from_num s n = BOk evs -> cursor_discipline (bref hd) None 0 evs) /\
+    (forall c evs, lib_numbered (db s) c -> rn (cu_lib c) <= rn (libref (db s)) ->
+       blocks_from_cursor s c = BOk evs ->
+       cursor_discipline (bref hd) (Some (cu_lib c)) (rn (cu_lib c)) evs) /\
+    (forall start c evs,
+       (block_in (ri (cu_blk c)) sg = false -> start <= rn (cu_blk c) -> through_cursor_hyps s sg c) ->
+       hub_through_cursor s start c = BOk evs -> cursor_discipline (bref hd) None 0 evs).
+
 (* ================================================================== 2. the file source resuming from a cursor *)
 
 (* block numbers do not decrease along the merged files (every chain is) *)
